@@ -4,9 +4,9 @@
 id=$1; PFX=${PFX:-seed}; WT=/tmp/$PFX-$id; OUT=/tmp/$PFX-$id-out; LOG=/var/tmp/nv-mut/confirm-$PFX-$id.log
 exec > $LOG 2>&1
 cd $WT || exit 2
-git checkout -q -- src lib 2>/dev/null
+git checkout -q -- src lib tests CMakeLists.txt 2>/dev/null; git clean -fdq tests 2>/dev/null
 git apply $OUT/patch.diff || { echo "RESULT patch-does-not-apply"; exit 1; }
-cmake --build _build >/dev/null 2>&1 || { echo "RESULT build-fails-with-change"; exit 1; }
+cmake -S . -B _build >/dev/null 2>&1; cmake --build _build >/dev/null 2>&1 || { echo "RESULT build-fails-with-change"; exit 1; }
 ctest --test-dir _build -j8 --timeout 900 2>&1 | tail -3
 ctest --test-dir _build -j8 --timeout 900 >/dev/null 2>&1 || ctest --test-dir _build -j8 --timeout 900 >/dev/null 2>&1 || { echo "RESULT tests-fail-with-change"; exit 1; }
 echo "--- demo WITH change"; (cd $OUT && sh ./run_demo.sh) > $LOG.with 2>&1; w=$?; tail -5 $LOG.with
